@@ -761,27 +761,48 @@ func (cfg *Config) wordFields(wps []syntax.WordPart) ([][]fieldPart, error) {
 			}
 			curField = append(curField, fp)
 		case *syntax.DblQuoted:
-			if len(wp.Parts) == 1 {
-				pe, _ := wp.Parts[0].(*syntax.ParamExp)
+			// A list expansion like "$@" makes one field per element, also
+			// with other text inside the same quotes: "a$@b" joins the
+			// text to the first and the last element.
+			rest := wp.Parts
+			onlyLists := true
+			for i := 0; i < len(rest); i++ {
+				pe, _ := rest[i].(*syntax.ParamExp)
 				elems, err := cfg.quotedElemFields(pe)
 				if err != nil {
 					return nil, err
 				}
-				if elems != nil {
-					for i, elem := range elems {
-						if i > 0 {
-							flush()
-						}
-						curField = append(curField, fieldPart{
-							quote: quoteDouble,
-							val:   elem,
-						})
-					}
+				if elems == nil {
 					continue
 				}
+				if i > 0 {
+					onlyLists = false
+					wfield, err := cfg.wordField(rest[:i], quoteDouble)
+					if err != nil {
+						return nil, err
+					}
+					for _, part := range wfield {
+						part.quote = quoteDouble
+						curField = append(curField, part)
+					}
+				}
+				for j, elem := range elems {
+					if j > 0 {
+						flush()
+					}
+					curField = append(curField, fieldPart{
+						quote: quoteDouble,
+						val:   elem,
+					})
+				}
+				rest = rest[i+1:]
+				i = -1
+			}
+			if len(rest) == 0 && len(wp.Parts) > 0 && onlyLists {
+				continue // nothing but list expansions, like "$@"
 			}
 			allowEmpty = true
-			wfield, err := cfg.wordField(wp.Parts, quoteDouble)
+			wfield, err := cfg.wordField(rest, quoteDouble)
 			if err != nil {
 				return nil, err
 			}
